@@ -20,13 +20,14 @@ import signal
 import subprocess
 import sys
 import tempfile
+import threading
 import time
 import warnings
 from concurrent.futures import ThreadPoolExecutor
 from pathlib import Path
 
 import common
-from props import c07gen
+from props import c07gen, c07shapes
 
 PID = "C07"
 TABLES = ["C07"]
@@ -39,33 +40,60 @@ FRAME = re.compile(r'^\s*File "([^"]*?)", line (\d+), in (.+)$')
 # ------------------------------------------------------------------------------------ CLI runner
 
 def materialise(root: Path, case):
+    """Project on disk. A file's content is a str, {"latin1": ..} / {"hex": ..} (raw bytes), {"symlink": <link text>}
+    (file or directory link, created after the regular files, never resolved here) or {"hardlink": <path relative to the
+    entry's directory>} (a second directory entry for the same inode)."""
     d = Path(tempfile.mkdtemp(prefix="p", dir=root))
+    later = []
     for rel, content in case["files"].items():
         p = d / rel
+        if isinstance(content, dict) and ("symlink" in content or "hardlink" in content):
+            later.append((p, content))
+            continue
         p.parent.mkdir(parents=True, exist_ok=True)
         if isinstance(content, dict) and "latin1" in content:
             p.write_bytes(content["latin1"].encode("latin-1"))
         elif isinstance(content, dict) and "hex" in content:
             p.write_bytes(bytes.fromhex(content["hex"]))
         else:
-            p.write_text(content, encoding="utf-8")
+            p.write_bytes(content.encode("utf-8"))          # bytes: "\r" must reach the file as written
+    for p, content in later:
+        p.parent.mkdir(parents=True, exist_ok=True)
+        if "symlink" in content:
+            os.symlink(content["symlink"], p)
+        else:
+            os.link(p.parent / content["hardlink"], p)
     return d
 
 
 def run_cli(root: Path, case):
+    """One judged run of the real command line. Optional case keys (round 3): `cwd` (directory below the project root to
+    run in; the module search path starts there), `pre_runs` (the same command is run that many times first: a cache
+    file written by run 1 is found by run 2), `{ABS}` in the target / an option value (absolute path of the project root)."""
     d = materialise(root, case)
     env = dict(os.environ, PYTHONHASHSEED="0", HOME=str(d / ".home"), XDG_CACHE_HOME=str(d / ".home" / ".cache"))
     env.pop("PYTHONPATH", None)
     if os.environ.get("PYTHONPATH"):
         env["PYTHONPATH"] = os.environ["PYTHONPATH"]
     (d / ".home").mkdir(exist_ok=True)
-    cmd = [sys.executable, "-m", "rattr", *case["opts"], case["target"]]
+    sub = lambda x: x.replace("{ABS}", str(d))  # noqa: E731
+    opts, target = [sub(o) for o in case["opts"]], sub(case["target"])
+    cmd = [sys.executable, "-m", "rattr", *opts, target]
     if case.get("culprit_wrapper"):
-        cmd = [sys.executable, "-c", CULPRIT_WRAPPER, *case["opts"], case["target"]]
+        cmd = [sys.executable, "-c", CULPRIT_WRAPPER, *opts, target]
     if case.get("fatal_wrapper"):
-        cmd = [sys.executable, "-c", FATAL_WRAPPER, *case["opts"], case["target"]]
+        cmd = [sys.executable, "-c", FATAL_WRAPPER, *opts, target]
+    if case.get("crash_wrapper"):
+        cmd = [sys.executable, "-c", c07shapes.CRASH_WRAPPER, *opts, target]
+    cwd = str(d / case["cwd"]) if case.get("cwd") else str(d)
     t0 = time.time()
-    p = subprocess.Popen(cmd, cwd=str(d), stdout=subprocess.PIPE, stderr=subprocess.PIPE, env=env)
+    for _ in range(int(case.get("pre_runs") or 0)):
+        try:
+            subprocess.run([sys.executable, "-m", "rattr", *opts, target], cwd=cwd, stdout=subprocess.DEVNULL, stderr=subprocess.DEVNULL,
+                           env=env, timeout=TIMEOUT_S)
+        except subprocess.TimeoutExpired:
+            pass
+    p = subprocess.Popen(cmd, cwd=cwd, stdout=subprocess.PIPE, stderr=subprocess.PIPE, env=env)
     try:
         o, e = p.communicate(timeout=TIMEOUT_S)
         rc, to = p.returncode, False
@@ -104,8 +132,9 @@ def confirm_timeout(root: Path, case):
     d = materialise(root, case)
     env = dict(os.environ, PYTHONHASHSEED="0", HOME=str(d / ".home"), XDG_CACHE_HOME=str(d / ".home" / ".cache"))
     (d / ".home").mkdir(exist_ok=True)
-    p = subprocess.Popen([sys.executable, "-m", "rattr", *case["opts"], case["target"]], cwd=str(d), stdout=subprocess.PIPE,
-                         stderr=subprocess.PIPE, env=env)
+    sub = lambda x: x.replace("{ABS}", str(d))  # noqa: E731
+    p = subprocess.Popen([sys.executable, "-m", "rattr", *[sub(o) for o in case["opts"]], sub(case["target"])],
+                         cwd=str(d / case["cwd"]) if case.get("cwd") else str(d), stdout=subprocess.PIPE, stderr=subprocess.PIPE, env=env)
     t0 = time.time()
     cpu = 0.0
     try:
@@ -390,6 +419,13 @@ def corpus():
     add("K22-sorted", {"target.py": "def f(xs, q):\n    return sorted(xs, key=lambda getattr: getattr(q, 'x').m)\n"})
     add("K22-results", {"target.py": "def f(getattr, q):\n    return getattr(q, 'x').m\ndef g(b, c):\n    return f(b, c)\n"})
     add("K22-results-hasattr", {"target.py": "def f(hasattr, q):\n    return hasattr(q, 'x').m\ndef g(b, c):\n    return f(b, c)\n"})
+    # control for the K22 class split: the SAME odd name (`getattr(obj, 'meta').title`: basename `getattr`, full name
+    # `obj.meta.title`) folded into a caller, in one file and across a followed import, WITHOUT any parameter named like an
+    # attribute builtin — must end normally (the swap is the identity and unbind_name returns before its sanity check)
+    add("control-K22-no-such-parameter", {"target.py": "def title_of(obj):\n    return getattr(obj, 'meta').title\ndef first(obj):\n    return getattr(obj, 'items')[0]\n"
+                                                       "def main(o):\n    return title_of(o) + first(o)\n"})
+    add("control-K22-no-such-parameter-followed", {"helpers.py": "def title_of(obj):\n    return getattr(obj, 'meta').title\n",
+                                                   "target.py": "from helpers import title_of\nimport helpers\ndef main(o):\n    return title_of(o) + helpers.title_of(o)\n"})
     # sanctioned outcomes, as controls
     add("control-ok", {"target.py": F1})
     add("control-fatal", {"target.py": "def f(a):\n    global x\n"})
@@ -1048,14 +1084,23 @@ def run(tier, seed, build):
                 "project. Oracle: exit 0 + well-formed output, or exit 1 + fatal:/error: line; anything else is a violation "
                 "`unhandled:<ExcType>:<innermost rattr function>`. (iv) function tie: real FunctionAnalyser vs Lean model vs Lean "
                 "predicate NoCrashShapeFn on every generated function. non-trivial = distinct project whose run was not a plain exit 0, "
-                "or function whose real analysis raised")
+                "or function whose real analysis raised. (vi, round 3) every --stdout mode / -C / second run on an existing cache x "
+                "degenerate module texts (empty, whitespace / comment / docstring only, single pass, only imports, zero functions, no final "
+                "newline, CRLF ...) as target, followed import (plain / from / star), package __init__, __init__ as target, behind an "
+                "imports-only module; file-system shapes: module files / directories / __init__ / target that are symlinks (to another "
+                "imported module, outside the project, dangling, loops, chains), hard links, two names for one file, target spellings, "
+                "targets outside the module search path, the cache file as directory / link — calls made through every name. (vii) whole-run "
+                "tie: real parse_and_analyse_file + resolve_import + show_* in-process vs Lean (op c07_run): import_irs keys, RattrStats "
+                "integers, output-stage outcome, resolve_import verdict per import statement; read() line count and show_stats on a grid")
     rng = random.Random(seed)
     n_projects = 400 if tier == "quick" else 2400
     n_sweep = 60 if tier == "quick" else 400
     n_fn_modules = 70 if tier == "quick" else 500
     n_file_modules = 36 if tier == "quick" else 400
     model = common.Model()
+    t_run0 = time.time()
     tmp = Path(tempfile.mkdtemp(prefix="rattr-c07-"))
+    tie_thread = None
     try:
         cases = []
         for c in corpus():
@@ -1063,6 +1108,11 @@ def run(tier, seed, build):
         fatal_rows = fatal_site_corpus()
         for c in fatal_rows:
             cases.append(dict(c, kind="fatalsite", expect=None, tags=[]))      # before the random part: deterministic replays
+        # round 3: every output mode x degenerate module texts at every place; file-system shapes (own generator state,
+        # so the random projects below are the same as before for a given seed)
+        rng3 = random.Random(seed * 7919 + 3)
+        for c in c07shapes.degenerate_corpus(rng3, tier) + c07shapes.fs_shape_corpus(rng3, tier):
+            cases.append(dict(c, expect=None))
         for i in range(n_projects):
             p = c07gen.gen_project(rng, hostile=0.1)
             cases.append(dict(p, kind="generated", row=None))
@@ -1087,6 +1137,28 @@ def run(tier, seed, build):
             cases.append({"kind": "follow23", "row": None, "expect": None, "files": {"target.py": imp + F1}, "target": "target.py",
                           "opts": ["-f", lv], "tags": []})
 
+        # the in-process ties (model vs real stages; one core, no subprocess of rattr) run in a thread of their own while
+        # the CLI cases run in WORKERS subprocesses: every random draw of the CLI part has been made above, `rng` belongs to
+        # the ties from here on; the ties fill their own Result (merged below), chdir only inside impl.in_dir (the CLI
+        # runner uses absolute paths and an explicit cwd for every child)
+        tie_res = common.Result(PID)
+        tie_failure = []
+        phases = {}
+
+        def run_ties():
+            try:
+                for name, fn in (("function_tie", lambda: function_tie(rng, n_fn_modules, tie_res, model)),
+                                 ("file_tie", lambda: file_tie(rng, n_file_modules, tie_res, model)),
+                                 ("round3_tie", lambda: c07shapes.tie(random.Random(seed * 7919 + 5), tier, tie_res, model, tie_tmp, materialise))):
+                    w0 = time.time()
+                    fn()
+                    phases[name] = {"wall_s": round(time.time() - w0, 1)}
+            except BaseException as e:  # noqa: BLE001 — re-raised in the main thread
+                tie_failure.append(e)
+
+        tie_tmp = Path(tempfile.mkdtemp(prefix="ties-", dir=tmp))
+        tie_thread = threading.Thread(target=run_ties, name="c07-ties")
+        tie_thread.start()
         with ThreadPoolExecutor(max_workers=WORKERS) as ex:
             outs = list(ex.map(lambda c: run_cli(tmp, c), cases))
             attributions = list(ex.map(lambda c: run_cli(tmp, dict(c, fatal_wrapper=True)), fatal_rows))
@@ -1128,6 +1200,14 @@ def run(tier, seed, build):
         for i, k in zip(need, classes):
             verdicts[i] = (verdicts[i][0], f"{verdicts[i][1]}[{k}]", verdicts[i][2])
             res.count("relative-import-class:" + k)
+        # the two families whose cause is not in the traceback (ImportError of resolve_import, ValueError of the relative-
+        # import visitors): a diagnostic run says which module / file it was, independent facts say which class
+        need = [i for i, v in enumerate(verdicts) if v[1] in c07shapes.REFINED]
+        with ThreadPoolExecutor(max_workers=WORKERS) as ex:
+            refined = list(ex.map(lambda i: c07shapes.refine(run_cli, tmp, cases[i], verdicts[i][1]), need))
+        for i, sg in zip(need, refined):
+            verdicts[i] = (verdicts[i][0], sg, verdicts[i][2])
+            res.count("refined:" + sg.split(":", 2)[-1])
         # ---- a would-be VIOLATION (signature not among the known findings) must reproduce: the tree under test or the
         # machine may have been disturbed while that one subprocess ran (seen once: rattr failed to import itself while
         # another process was rewriting the checkout). Re-run such cases; report only what recurs.
@@ -1139,6 +1219,8 @@ def run(tier, seed, build):
             v = classify(*o[:4], cases[i]["opts"])
             if v[1] in ASSERT_SIGS:
                 v = (v[0], f"{v[1]}[{relative_import_class(tmp, cases[i])}]", v[2])
+            if v[1] in c07shapes.REFINED:
+                v = (v[0], c07shapes.refine(run_cli, tmp, cases[i], v[1]), v[2])
             return o, v
 
         suspects = [i for i, v in enumerate(verdicts) if v[1] is not None and v[1] not in known_sigs and v[0] != "timeout"
@@ -1181,6 +1263,9 @@ def run(tier, seed, build):
                     res.count("opt:" + o + (("=" + v) if v else ""))
             small = {"target": c["target"], "opts": c["opts"], "row": c.get("row"),
                      "files": c["files"]}
+            for k in ("cwd", "pre_runs"):
+                if c.get(k):
+                    small[k] = c[k]
             if cls != "exit0:results" or c["kind"] == "corpus":
                 res.nontrivial.add(common.digest([c["files"].get(c["target"]), c["opts"]]))
             if sig is not None:
@@ -1221,9 +1306,25 @@ def run(tier, seed, build):
         res.extra["slowest_run_s"] = round(slowest, 2)
         res.extra["cli_runs"] = len(cases)
 
-        function_tie(rng, n_fn_modules, res, model)
-        file_tie(rng, n_file_modules, res, model)
+        phases["cli_wall_s"] = round(time.time() - t_run0, 1)
+        tie_thread.join()
+        if tie_failure:
+            raise tie_failure[0]
+        # merge what the in-process ties found (they ran beside the CLI subprocesses, on a Result of their own)
+        res.evaluations += tie_res.evaluations
+        res.nontrivial |= tie_res.nontrivial
+        res.skipped_outside_fragment += tie_res.skipped_outside_fragment
+        for k, v in tie_res.distribution.items():
+            res.count(k, v)
+        res.disagreements.extend(tie_res.disagreements)
+        res.internal_errors.extend(tie_res.internal_errors)
+        res.samples.extend(tie_res.samples)
+        res.extra.update(tie_res.extra)
+        phases["total_wall_s"] = round(time.time() - t_run0, 1)
+        res.extra["phases"] = phases
     finally:
+        if tie_thread is not None:
+            tie_thread.join()
         shutil.rmtree(tmp, ignore_errors=True)
     res.assumptions = [
         "[interp] an option VALUE that argparse rejects (exit 2, usage message) is outside the quantifier; only accepted combinations are generated",
@@ -1233,6 +1334,9 @@ def run(tier, seed, build):
         "a 30 s wall-clock timeout is only a suspicion: the case is re-run alone and reported as a hang only after >= 60 s of its own CPU time (or 240 s wall) without finishing; at most 2 such confirmations per run, further timed-out rows are listed as unconfirmed and are never violations by themselves",
         "interpreter resource limits (RecursionError on ~1000-deep expressions, memory) and the contents of real site-packages / stdlib at follow levels 2-3 are outside the claim (sampled only)",
         "the crash-freedom theorems cover the function analyser (C07_fn_no_crash_partial, sane root contexts) and the single-file pipeline up to result generation (C07_file_no_crash_partial: root-context builder, file / class analysers; result generation is covered under the condition ResultsSafe on the FileIr: C07_results_no_crash_partial, C07_pipeline_no_crash_partial); import following, the cache and the CLI are covered by the raise-site table (Tie A) and this CLI sweep",
+        "[interp] a project containing symbolic links (also dangling ones and loops) is a valid input: the target is a syntactically valid module, and an import that cannot be followed must end in rattr's own diagnostic",
+        "the ImportError of resolve_import and the ValueError of the relative-import visitors are signed by cause: a second run prints the raising frame's locals (module name, keys of import_irs, current file); the class is then decided by facts rattr does not compute (origin path and real path of each module by a plain directory walk of sys.path, the import statements of the project files by ast, Python's identifier rule)",
+        "show_stats divides by the sum of five perf_counter differences; that the sum is not 0.0 is an assumption of C07_show_stats_no_crash (the first timer spans opening and reading the target)",
         "(v) module tie: the Lean predicates NoCrashShapeFile / NoCrashShapePipeline on every generated single-file module vs the real stages run in-process: NoCrashShapeFile => the real compile_root_context and FileAnalyser do not raise and rattr.__main__.main raises at most ValueError / ImportError; NoCrashShapePipeline => rattr.__main__.main does not raise at all; a failure of either implication is reported as a disagreement (model error)",
     ]
     return res
@@ -1246,8 +1350,11 @@ def replay(path):
         return 0
     tmp = Path(tempfile.mkdtemp(prefix="rattr-c07-replay-"))
     try:
-        rc, out, err, to, dt = run_cli(tmp, {"files": case["files"], "opts": case["opts"], "target": case["target"]})
+        c = {"files": case["files"], "opts": case["opts"], "target": case["target"], "cwd": case.get("cwd"), "pre_runs": case.get("pre_runs")}
+        rc, out, err, to, dt = run_cli(tmp, c)
         cls, sig, detail = classify(rc, out, err, to, case["opts"])
+        if sig in c07shapes.REFINED:
+            sig = c07shapes.refine(run_cli, tmp, c, sig)
         print(json.dumps({"exit": rc, "class": cls, "signature": sig, "stderr_tail": ANSI.sub("", err)[-1500:], "stdout_head": out[:300]}, indent=1))
     finally:
         shutil.rmtree(tmp, ignore_errors=True)
